@@ -18,19 +18,19 @@ Inductive item :=
 (* a payload: a literal run, then (item, literal run) any number of times; runs may be empty *)
 Definition payload : Type := (str * list (item * str))%type.
 
-Definition render_item (k : item) : str :=
+Definition item_text (k : item) : str :=
   match k with
   | INum n a r ds => dollars n ++ modifier a r ds
   | IPh => [c_dollar; c_hash]
   | IField ix None => c_dollar :: c_lbrace :: ix ++ [c_rbrace]
   | IField ix (Some p) => c_dollar :: c_lbrace :: ix ++ c_colon :: p ++ [c_rbrace]
   end.
-Fixpoint render_tail (l : list (item * str)) : str :=
+Fixpoint tail_text (l : list (item * str)) : str :=
   match l with
   | [] => []
-  | (k, T) :: l' => render_item k ++ T ++ render_tail l'
+  | (k, T) :: l' => item_text k ++ T ++ tail_text l'
   end.
-Definition render (P : payload) : str := fst P ++ render_tail (snd P).
+Definition payload_text (P : payload) : str := fst P ++ tail_text (snd P).
 
 (* [walk d T]: the brace depth after the literal run T read from depth d; None when T closes more braces
    than are open, has an unescaped `$` or ends in a dangling backslash.  A run need not be balanced. *)
@@ -79,7 +79,7 @@ Fixpoint tail_ok (d : nat) (l : list (item * str)) : bool :=
   match l with
   | [] => Nat.eqb d 0
   | (k, T) :: l' =>
-      item_ok k (hd c_rbrace (T ++ render_tail l'))
+      item_ok k (hd c_rbrace (T ++ tail_text l'))
       && match walk d T with Some d' => tail_ok d' l' | None => false end
   end.
 Definition payload_ok (P : payload) : bool :=
@@ -97,7 +97,7 @@ Fixpoint tail_tokens (pos : nat) (l : list (item * str)) : list token :=
   match l with
   | [] => []
   | (k, T) :: l' =>
-      let e := (pos + length (render_item k))%nat in
+      let e := (pos + length (item_text k))%nat in
       mkTok (item_kind k) pos e :: text_tokens e T ++ tail_tokens (e + length T) l'
   end.
 Definition payload_tokens (pos : nat) (P : payload) : list token :=
@@ -354,14 +354,14 @@ Proof.
 Qed.
 
 (* every item starts with `$` *)
-Definition item_body (k : item) : str := tl (render_item k).
-Lemma render_item_dollar k nx : item_ok k nx = true -> render_item k = c_dollar :: item_body k.
+Definition item_body (k : item) : str := tl (item_text k).
+Lemma item_text_dollar k nx : item_ok k nx = true -> item_text k = c_dollar :: item_body k.
 Proof.
   destruct k as [n a r ds| |ix [p|]]; try reflexivity.
   cbn [item_ok]. intros H. destruct n as [|n']; [discriminate|]. reflexivity.
 Qed.
-Lemma item_len k nx : item_ok k nx = true -> length (render_item k) = S (length (item_body k)).
-Proof. intros H. rewrite (render_item_dollar k nx H). reflexivity. Qed.
+Lemma item_len k nx : item_ok k nx = true -> length (item_text k) = S (length (item_body k)).
+Proof. intros H. rewrite (item_text_dollar k nx H). reflexivity. Qed.
 
 Ltac split_andb H :=
   repeat match type of H with
@@ -371,16 +371,16 @@ Ltac split_andb H :=
 (* the tokenizer reads exactly the item, whatever the depth, and leaves the context alone *)
 Lemma consume_item k nx rest g a d prev :
   item_ok k nx = true ->
-  consume (ectx g a d) prev (render_item k ++ nx :: rest) =
-    (CTok (item_kind k) (length (render_item k)), ectx g a d).
+  consume (ectx g a d) prev (item_text k ++ nx :: rest) =
+    (CTok (item_kind k) (length (item_text k)), ectx g a d).
 Proof.
   intros Hok. pose proof (ectx_truthy g a d) as He.
-  assert (Hfirst : forall c n, (orelse (field (ectx g a d) (render_item k ++ nx :: rest)) (fun _ =>
-                     orelse (repeater_placeholder (render_item k ++ nx :: rest)) (fun _ =>
-                     orelse (repeater_number (render_item k ++ nx :: rest)) (fun _ =>
-                     orelse (repeater (ectx g a d) (render_item k ++ nx :: rest)) (fun _ =>
-                     white_space (render_item k ++ nx :: rest)))))) = CTok c n ->
-                   consume (ectx g a d) prev (render_item k ++ nx :: rest) = (CTok c n, ectx g a d)).
+  assert (Hfirst : forall c n, (orelse (field (ectx g a d) (item_text k ++ nx :: rest)) (fun _ =>
+                     orelse (repeater_placeholder (item_text k ++ nx :: rest)) (fun _ =>
+                     orelse (repeater_number (item_text k ++ nx :: rest)) (fun _ =>
+                     orelse (repeater (ectx g a d) (item_text k ++ nx :: rest)) (fun _ =>
+                     white_space (item_text k ++ nx :: rest)))))) = CTok c n ->
+                   consume (ectx g a d) prev (item_text k ++ nx :: rest) = (CTok c n, ectx g a d)).
   { intros c n H. unfold consume. rewrite H. reflexivity. }
   apply Hfirst. clear Hfirst.
   destruct k as [n at_ r ds| |ix [p|]].
@@ -395,37 +395,37 @@ Proof.
       - intros -> -> ->. cbn [negb is_nil orb] in Hok1. split_andb Hok1. split; apply negb_true_iff; assumption.
       - intros ->. cbn [orb] in Hok4. split_andb Hok4. apply negb_true_iff in Hok4.
         split; [exact Hok4|]. destruct ds; [reflexivity|discriminate]. }
-    assert (Hshape : exists c2 r', render_item (INum n at_ r ds) ++ nx :: rest = c_dollar :: c2 :: r'
+    assert (Hshape : exists c2 r', item_text (INum n at_ r ds) ++ nx :: rest = c_dollar :: c2 :: r'
                                    /\ (c2 =? c_lbrace) = false /\ (c2 =? c_hash) = false).
-    { cbn [render_item]. destruct n as [|[|n'']]; [congruence| |].
+    { cbn [item_text]. destruct n as [|[|n'']]; [congruence| |].
       - destruct at_.
         + cbn [dollars repeat modifier app]. eexists. eexists. split; [reflexivity|]. split; reflexivity.
         + cbn [dollars repeat modifier app]. eexists. eexists. split; [reflexivity|].
           cbn [Nat.eqb negb orb] in Hok0. split_andb Hok0. split; apply negb_true_iff; assumption.
       - cbn [dollars repeat app]. eexists. eexists. split; [reflexivity|]. split; reflexivity. }
     destruct Hshape as [c2 [r' [Es [Hb Hh]]]].
-    assert (Hf : field (ectx g a d) (render_item (INum n at_ r ds) ++ nx :: rest) = CNone)
+    assert (Hf : field (ectx g a d) (item_text (INum n at_ r ds) ++ nx :: rest) = CNone)
       by (rewrite Es; apply field_not_brace; exact Hb).
-    assert (Hp : repeater_placeholder (render_item (INum n at_ r ds) ++ nx :: rest) = CNone)
+    assert (Hp : repeater_placeholder (item_text (INum n at_ r ds) ++ nx :: rest) = CNone)
       by (rewrite Es; apply rp_not_hash; exact Hh).
     rewrite Hf. cbn [orelse]. rewrite Hp. cbn [orelse].
-    cbn [render_item]. rewrite <- app_assoc.
+    cbn [item_text]. rewrite <- app_assoc.
     rewrite (repeater_number_form n at_ r ds (nx :: rest) ltac:(lia) Hd Hends). cbn [orelse].
     cbn [item_kind]. unfold form_base. rewrite app_length. unfold dollars. rewrite repeat_length. reflexivity.
   - (* `$#` *)
-    cbn [render_item app]. rewrite field_not_brace by reflexivity. cbn [orelse]. reflexivity.
+    cbn [item_text app]. rewrite field_not_brace by reflexivity. cbn [orelse]. reflexivity.
   - (* `${n:placeholder}` *)
     cbn [item_ok] in Hok. split_andb Hok.
     pose proof (forallb_all_digits ix Hok1) as Hd.
     assert (Hne : ix <> []) by (destruct ix; [discriminate|congruence]).
-    cbn [render_item]. cbn [app]. rewrite <- !app_assoc. cbn [app]. rewrite <- !app_assoc. cbn [app].
+    cbn [item_text]. cbn [app]. rewrite <- !app_assoc. cbn [app]. rewrite <- !app_assoc. cbn [app].
     rewrite (field_index_ph _ ix p (nx :: rest) He Hd Hne Hok0). cbn [orelse item_kind].
     f_equal. cbn [length]. rewrite !app_length. cbn [length]. rewrite app_length. cbn [length]. lia.
   - (* `${n}` *)
     cbn [item_ok] in Hok. split_andb Hok.
     pose proof (forallb_all_digits ix Hok1) as Hd.
     assert (Hne : ix <> []) by (destruct ix; [discriminate|congruence]).
-    cbn [render_item]. cbn [app]. rewrite <- !app_assoc. cbn [app].
+    cbn [item_text]. cbn [app]. rewrite <- !app_assoc. cbn [app].
     rewrite (field_index _ ix (nx :: rest) He Hd Hne). cbn [orelse item_kind].
     f_equal. cbn [length]. rewrite !app_length. cbn [length]. lia.
 Qed.
@@ -434,35 +434,35 @@ Qed.
 Lemma hd_app_default {A} (x : A) (l r : list A) : l ++ x :: r = hd x l :: tl (l ++ x :: r).
 Proof. destruct l; reflexivity. Qed.
 
-Lemma tail_ok_stops d l rest : tail_ok d l = true -> stops d (render_tail l ++ c_rbrace :: rest).
+Lemma tail_ok_stops d l rest : tail_ok d l = true -> stops d (tail_text l ++ c_rbrace :: rest).
 Proof.
   destruct l as [|[k T] l'].
-  - cbn [tail_ok render_tail app stops]. intros H. apply Nat.eqb_eq in H. right. split; [reflexivity|exact H].
-  - cbn [tail_ok render_tail]. intros H. apply andb_prop in H. destruct H as [Hk _].
-    rewrite (render_item_dollar k _ Hk). cbn [app stops]. left. reflexivity.
+  - cbn [tail_ok tail_text app stops]. intros H. apply Nat.eqb_eq in H. right. split; [reflexivity|exact H].
+  - cbn [tail_ok tail_text]. intros H. apply andb_prop in H. destruct H as [Hk _].
+    rewrite (item_text_dollar k _ Hk). cbn [app stops]. left. reflexivity.
 Qed.
 
 Lemma toks_tail : forall l d g a prev pos rest,
   tail_ok d l = true ->
-  toks 0 (ectx g a d) prev pos (render_tail l ++ c_rbrace :: rest) =
+  toks 0 (ectx g a d) prev pos (tail_text l ++ c_rbrace :: rest) =
     tcons (tail_tokens pos l)
-          (toks 0 (ectx g a 0) (last_prev prev (render_tail l)) (pos + length (render_tail l)) (c_rbrace :: rest)).
+          (toks 0 (ectx g a 0) (last_prev prev (tail_text l)) (pos + length (tail_text l)) (c_rbrace :: rest)).
 Proof.
   induction l as [|[k T] l' IH]; intros d g a prev pos rest Hok.
   - cbn [tail_ok] in Hok. apply Nat.eqb_eq in Hok. subst d.
-    cbn [render_tail app tail_tokens length]. rewrite Nat.add_0_r. unfold last_prev. cbn [rev].
+    cbn [tail_text app tail_tokens length]. rewrite Nat.add_0_r. unfold last_prev. cbn [rev].
     symmetry. apply tcons_nil.
   - cbn [tail_ok] in Hok. apply andb_prop in Hok. destruct Hok as [Hk Hrest].
     destruct (walk d T) as [d'|] eqn:Hw; [|discriminate].
-    cbn [render_tail tail_tokens]. rewrite <- !app_assoc.
+    cbn [tail_text tail_tokens]. rewrite <- !app_assoc.
     (* the item *)
-    set (after := T ++ render_tail l' ++ c_rbrace :: rest).
-    assert (Hafter : after = hd c_rbrace (T ++ render_tail l') :: tl after).
+    set (after := T ++ tail_text l' ++ c_rbrace :: rest).
+    assert (Hafter : after = hd c_rbrace (T ++ tail_text l') :: tl after).
     { unfold after. rewrite app_assoc. apply hd_app_default. }
-    set (nx := hd c_rbrace (T ++ render_tail l')) in *.
+    set (nx := hd c_rbrace (T ++ tail_text l')) in *.
     pose proof (consume_item k nx (tl after) g a d prev Hk) as Hc.
     rewrite <- Hafter in Hc.
-    pose proof (render_item_dollar k nx Hk) as Ed. pose proof (item_len k nx Hk) as El.
+    pose proof (item_text_dollar k nx Hk) as Ed. pose proof (item_len k nx Hk) as El.
     rewrite El in Hc. rewrite Ed in Hc |- *. cbn [app] in Hc |- *.
     rewrite (toks_token _ _ _ _ _ _ _ _ Hc).
     cbn [length]. change (mkTok (item_kind k) pos (pos + S (length (item_body k))) :: ?x) with ([mkTok (item_kind k) pos (pos + S (length (item_body k)))] ++ x).
@@ -475,11 +475,11 @@ Proof.
     rewrite tcons_app. f_equal.
     (* the run *)
     unfold after.
-    rewrite (toks_run T (render_tail l' ++ c_rbrace :: rest) g a d d' _ _ Hw (tail_ok_stops d' l' rest Hrest)).
+    rewrite (toks_run T (tail_text l' ++ c_rbrace :: rest) g a d d' _ _ Hw (tail_ok_stops d' l' rest Hrest)).
     rewrite tcons_app. f_equal.
     (* the rest *)
     rewrite (IH d' g a _ _ rest Hrest). f_equal. f_equal.
-    + change (c_dollar :: item_body k ++ T ++ render_tail l') with ((c_dollar :: item_body k) ++ T ++ render_tail l').
+    + change (c_dollar :: item_body k ++ T ++ tail_text l') with ((c_dollar :: item_body k) ++ T ++ tail_text l').
       rewrite !last_prev_app. rewrite last_prev_cons. reflexivity.
     + rewrite !app_length. unfold char. lia.
 Qed.
@@ -487,30 +487,30 @@ Qed.
 (* the whole payload between the braces of the text *)
 Lemma toks_payload P g a prev pos rest :
   payload_ok P = true ->
-  toks 0 (ectx g a 0) prev pos (render P ++ c_rbrace :: rest) =
+  toks 0 (ectx g a 0) prev pos (payload_text P ++ c_rbrace :: rest) =
     tcons (payload_tokens pos P)
-          (toks 0 (ectx g a 0) (last_prev prev (render P)) (pos + length (render P)) (c_rbrace :: rest)).
+          (toks 0 (ectx g a 0) (last_prev prev (payload_text P)) (pos + length (payload_text P)) (c_rbrace :: rest)).
 Proof.
-  destruct P as [T0 l]. unfold payload_ok, render, payload_tokens. cbn [fst snd]. intros Hok.
+  destruct P as [T0 l]. unfold payload_ok, payload_text, payload_tokens. cbn [fst snd]. intros Hok.
   destruct (walk 0 T0) as [d|] eqn:Hw; [|discriminate].
   rewrite <- app_assoc.
-  rewrite (toks_run T0 (render_tail l ++ c_rbrace :: rest) g a 0 d prev pos Hw (tail_ok_stops d l rest Hok)).
+  rewrite (toks_run T0 (tail_text l ++ c_rbrace :: rest) g a 0 d prev pos Hw (tail_ok_stops d l rest Hok)).
   rewrite tcons_app. f_equal.
   rewrite (toks_tail l d g a _ _ rest Hok). f_equal. f_equal.
   - rewrite last_prev_app. reflexivity.
   - rewrite app_length. lia.
 Qed.
 
-(* ================================================================ tokenize (name ++ "{" ++ render P ++ "}") *)
+(* ================================================================ tokenize (name ++ "{" ++ payload_text P ++ "}") *)
 Definition nested_abbr_tokens (name : str) (P : payload) : list token :=
   let n := length name in
   [mkTok (TLiteral name) 0 n; mkTok (TBracket true BExpr) n (n + 1)]
   ++ payload_tokens (n + 1) P
-  ++ [mkTok (TBracket false BExpr) (n + 1 + length (render P)) (n + 1 + length (render P) + 1)].
+  ++ [mkTok (TBracket false BExpr) (n + 1 + length (payload_text P)) (n + 1 + length (payload_text P) + 1)].
 
 Theorem tokenize_nested name P :
   name_ok name -> payload_ok P = true ->
-  tokenize (name ++ c_lbrace :: render P ++ [c_rbrace]) = TOk (nested_abbr_tokens name P).
+  tokenize (name ++ c_lbrace :: payload_text P ++ [c_rbrace]) = TOk (nested_abbr_tokens name P).
 Proof.
   intros [Hne HF] Hb. unfold tokenize, nested_abbr_tokens.
   destruct name as [|c name']; [congruence|].
@@ -518,12 +518,12 @@ Proof.
   destruct (name_char_facts c Hc) as [H1 [H2 [H3 [H4 [H5 [H6 H7]]]]]].
   cbn [app]. etransitivity.
   { apply toks_token.
-    apply (consume_plain ctx0 None c (name' ++ c_lbrace :: render P ++ [c_rbrace]) H2 H4).
+    apply (consume_plain ctx0 None c (name' ++ c_lbrace :: payload_text P ++ [c_rbrace]) H2 H4).
     - unfold is_allowed_repeater. rewrite H5. reflexivity.
-    - exact (lit_name (c :: name') None (render P ++ [c_rbrace]) HF). }
+    - exact (lit_name (c :: name') None (payload_text P ++ [c_rbrace]) HF). }
   cbn [cgroup cattr cquote ctx0].
   etransitivity.
-  { apply f_equal. apply (toks_token (mkCtx 0 0 0 None) _ _ c_lbrace [] (render P ++ [c_rbrace])).
+  { apply f_equal. apply (toks_token (mkCtx 0 0 0 None) _ _ c_lbrace [] (payload_text P ++ [c_rbrace])).
     apply consume_bracket; try reflexivity.
     eexists. apply lit_stops_at_lbrace. }
   cbn [is_open_bracket cgroup cattr cexpr cquote length].
@@ -553,9 +553,9 @@ Proof. unfold payload_tokens. apply Forall_app. split; [apply text_tokens_plain|
 
 (* ================================================================ SPEC: the value of a payload *)
 (* a value is a list of strings and tabstop fields; neighbouring strings are one string *)
-Inductive piece := PText (s : str) | PField (i : N) (name : str).
+Inductive vpiece := PText (s : str) | PField (i : N) (name : str).
 
-Fixpoint join_pieces (ps : list piece) : list vtok :=
+Fixpoint join_pieces (ps : list vpiece) : list vtok :=
   match ps with
   | [] => []
   | PField i n :: r => VField i n :: join_pieces r
@@ -569,16 +569,16 @@ Fixpoint join_pieces (ps : list piece) : list vtok :=
 (* a literal run stands for itself with escapes resolved (inner braces kept), a counter for the counter in
    force under the repeater stack [reps] (C02_numbering_value), `$#` for the wrapped text -- none here --,
    a field for itself *)
-Definition lit_piece (T : str) : list piece := match T with [] => [] | _ => [PText (unescape T)] end.
-Definition item_piece (reps : list rep) (k : item) : piece :=
+Definition lit_piece (T : str) : list vpiece := match T with [] => [] | _ => [PText (unescape T)] end.
+Definition item_piece (reps : list rep) (k : item) : vpiece :=
   match k with
   | INum n _ r ds => PText (pad n (str_of_Z (counter_in_force r (form_base ds) reps)))
   | IPh => PText []
   | IField ix ph => PField (opt_default 0 (int_of_str ix)) (match ph with Some p => p | None => [] end)
   end.
-Definition payload_pieces (reps : list rep) (P : payload) : list piece :=
+Definition payload_pieces (reps : list rep) (P : payload) : list vpiece :=
   lit_piece (fst P) ++ flat_map (fun kt => item_piece reps (fst kt) :: lit_piece (snd kt)) (snd P).
-Definition payload_value (reps : list rep) (P : payload) : option (list vtok) :=
+Definition nested_value (reps : list rep) (P : payload) : option (list vtok) :=
   match payload_pieces reps P with [] => None | ps => Some (join_pieces ps) end.
 
 (* ================================================================ stringify_value on the payload's tokens *)
@@ -663,14 +663,14 @@ Proof.
   - cbn [tail_ok] in Hok. apply andb_prop in Hok. destruct Hok as [Hk Hrest].
     destruct (walk d T) as [d'|] eqn:Hw; [|discriminate].
     cbn [tail_tokens flat_map fst snd].
-    destruct (sva_item env k _ pos (pos + length (render_item k))%nat acc st
-                (text_tokens (pos + length (render_item k)) T ++ tail_tokens (pos + length (render_item k) + length T) l')
+    destruct (sva_item env k _ pos (pos + length (item_text k))%nat acc st
+                (text_tokens (pos + length (item_text k)) T ++ tail_tokens (pos + length (item_text k) + length T) l')
                 Htext Hk) as [st1 [Hs1 E1]].
     rewrite E1. clear E1.
     destruct Hs1 as [Hr1 Hg1].
     destruct (item_piece (cs_repeaters st) k) as [s|i n] eqn:Ep.
     + rewrite sva_text_tokens.
-      destruct (IH d' (pos + length (render_item k) + length T)%nat
+      destruct (IH d' (pos + length (item_text k) + length T)%nat
                   (match T with [] => acc_app acc s | _ => acc_app (acc_app acc s) (unescape T) end) st1 Htext Hrest)
         as [st' [Hs' E']].
       exists st'. split; [eapply same_counters_trans; [split; eassumption|exact Hs']|].
@@ -678,7 +678,7 @@ Proof.
       cbn [app]. rewrite with_acc_text.
       destruct T as [|t0 T']; [reflexivity|]. cbn [lit_piece app]. rewrite with_acc_text. reflexivity.
     + rewrite sva_text_tokens.
-      destruct (IH d' (pos + length (render_item k) + length T)%nat
+      destruct (IH d' (pos + length (item_text k) + length T)%nat
                   (match T with [] => None | _ => acc_app None (unescape T) end) st1 Htext Hrest)
         as [st' [Hs' E']].
       exists st'. split; [eapply same_counters_trans; [split; eassumption|exact Hs']|].
@@ -728,12 +728,12 @@ Lemma conv_nested env (name : str) P pos nt st :
   name <> [] -> tk nt = TLiteral name -> ce_text env = WNone -> payload_ok P = true ->
   exists st', same_counters st st' /\
   conv_stmt env (TElem (Some [nt]) None (Some (payload_tokens pos P)) None false []) st =
-    Ok ([ANode (Some name) (payload_value (cs_repeaters st) P) None None [] false], st').
+    Ok ([ANode (Some name) (nested_value (cs_repeaters st) P) None None [] false], st').
 Proof.
   intros Hne Hn Htext Hok.
   destruct name as [|c name']; [congruence|].
   destruct (stringify_payload env pos P st Htext Hok) as [st' [Hs' E']].
-  unfold payload_value.
+  unfold nested_value.
   destruct (payload_tokens_shape pos (cs_repeaters st) P) as [[Et Ep]|[t [r [p [ps [Et Ep]]]]]].
   - exists st. split; [apply same_counters_refl|]. rewrite Et, Ep.
     cbn. unfold stringify. rewrite Hn. cbn. rewrite app_nil_r. reflexivity.
@@ -746,15 +746,15 @@ Qed.
 (* ================================================================ text_nested: tokenize + parse + convert *)
 Theorem text_nested jsx env mr name P :
   name_ok name -> payload_ok P = true -> ce_text env = WNone ->
-  parse_abbr jsx env mr (name ++ c_lbrace :: render P ++ [c_rbrace]) =
-    Ok [ANode (Some name) (payload_value [] P) None None [] false].
+  parse_abbr jsx env mr (name ++ c_lbrace :: payload_text P ++ [c_rbrace]) =
+    Ok [ANode (Some name) (nested_value [] P) None None [] false].
 Proof.
   intros Hname Hb Htext. unfold parse_abbr.
   rewrite (tokenize_nested name P Hname Hb). unfold nested_abbr_tokens.
   set (n := length name).
   set (nt := mkTok (TLiteral name) 0 n).
   set (open := mkTok (TBracket true BExpr) n (n + 1)).
-  set (close := mkTok (TBracket false BExpr) (n + 1 + length (render P)) (n + 1 + length (render P) + 1)).
+  set (close := mkTok (TBracket false BExpr) (n + 1 + length (payload_text P)) (n + 1 + length (payload_text P) + 1)).
   set (inner := payload_tokens (n + 1) P).
   change ([nt; open] ++ inner ++ [close]) with (nt :: open :: inner ++ [close]).
   rewrite (parse_single jsx _ _ (block_text jsx nt open close name inner eq_refl eq_refl eq_refl
@@ -771,7 +771,7 @@ Qed.
 (* the parser's own result: ONE element whose value is the payload's tokens, in order *)
 Theorem parse_nested jsx name P :
   name_ok name -> payload_ok P = true ->
-  exists toks, tokenize (name ++ c_lbrace :: render P ++ [c_rbrace]) = TOk toks /\
+  exists toks, tokenize (name ++ c_lbrace :: payload_text P ++ [c_rbrace]) = TOk toks /\
     parse jsx toks =
       POk [TElem (Some [mkTok (TLiteral name) 0 (length name)]) None
                  (Some (payload_tokens (length name + 1) P)) None false []].
@@ -781,7 +781,7 @@ Proof.
   set (n := length name).
   set (nt := mkTok (TLiteral name) 0 n).
   set (open := mkTok (TBracket true BExpr) n (n + 1)).
-  set (close := mkTok (TBracket false BExpr) (n + 1 + length (render P)) (n + 1 + length (render P) + 1)).
+  set (close := mkTok (TBracket false BExpr) (n + 1 + length (payload_text P)) (n + 1 + length (payload_text P) + 1)).
   set (inner := payload_tokens (n + 1) P).
   change ([nt; open] ++ inner ++ [close]) with (nt :: open :: inner ++ [close]).
   rewrite (parse_single jsx _ _ (block_text jsx nt open close name inner eq_refl eq_refl eq_refl
@@ -793,7 +793,7 @@ Qed.
    closing Bracket token is the last token and spans the last character; no token between is a brace *)
 Theorem nested_closing_brace name P :
   name_ok name -> payload_ok P = true ->
-  let s := name ++ c_lbrace :: render P ++ [c_rbrace] in
+  let s := name ++ c_lbrace :: payload_text P ++ [c_rbrace] in
   exists inner,
     tokenize s = TOk (mkTok (TLiteral name) 0 (length name)
                       :: mkTok (TBracket true BExpr) (length name) (length name + 1)
@@ -803,7 +803,102 @@ Proof.
   intros Hname Hb s. exists (payload_tokens (length name + 1) P). split; [|apply payload_tokens_plain].
   unfold s. rewrite (tokenize_nested name P Hname Hb). unfold nested_abbr_tokens. cbn [app].
   f_equal. f_equal. f_equal. f_equal.
-  assert (Hlen : length (name ++ c_lbrace :: render P ++ [c_rbrace]) = (length name + 1 + length (render P) + 1)%nat).
+  assert (Hlen : length (name ++ c_lbrace :: payload_text P ++ [c_rbrace]) = (length name + 1 + length (payload_text P) + 1)%nat).
   { rewrite app_length. cbn [length]. rewrite app_length. cbn [length]. unfold char. lia. }
   rewrite Hlen. rewrite Nat.add_sub. reflexivity.
 Qed.
+
+(* ================================================================ readable consequences of the value spec *)
+(* the text a value prints (a field prints its placeholder) *)
+Definition vtok_text (v : vtok) : str := match v with VStr s => s | VField _ nm => nm end.
+Definition value_text (v : option (list vtok)) : str :=
+  match v with Some l => concat (map vtok_text l) | None => [] end.
+
+(* what an item stands for in the output text under the repeater stack [reps] *)
+Definition item_out (reps : list rep) (k : item) : str :=
+  match k with
+  | INum n _ r ds => pad n (str_of_Z (counter_in_force r (form_base ds) reps))
+  | IPh => []
+  | IField _ ph => match ph with Some p => p | None => [] end
+  end.
+(* the payload with every literal run unescaped and every counter replaced by its value *)
+Definition payload_out (reps : list rep) (P : payload) : str :=
+  unescape (fst P) ++ concat (map (fun kt => item_out reps (fst kt) ++ unescape (snd kt)) (snd P)).
+
+Definition vpiece_text (p : vpiece) : str := match p with PText s => s | PField _ nm => nm end.
+Lemma join_pieces_text : forall ps, concat (map vtok_text (join_pieces ps)) = concat (map vpiece_text ps).
+Proof.
+  induction ps as [|[s|i n] ps IH]; [reflexivity| |].
+  - cbn [join_pieces map concat vpiece_text]. rewrite <- IH.
+    destruct (join_pieces ps) as [|[s'|i' n'] r']; cbn [map concat vtok_text]; [reflexivity| |reflexivity].
+    rewrite app_assoc. reflexivity.
+  - cbn [join_pieces map concat vtok_text vpiece_text]. rewrite IH. reflexivity.
+Qed.
+
+Lemma lit_piece_text T : concat (map vpiece_text (lit_piece T)) = unescape T.
+Proof. destruct T; [reflexivity|]. cbn [lit_piece map concat vpiece_text]. apply app_nil_r. Qed.
+
+Lemma item_piece_text reps k : vpiece_text (item_piece reps k) = item_out reps k.
+Proof. destruct k as [n a r ds| |ix ph]; reflexivity. Qed.
+
+(* the text of the value = the payload, escapes resolved, counters replaced by their values *)
+Theorem nested_value_text reps P : value_text (nested_value reps P) = payload_out reps P.
+Proof.
+  unfold nested_value, payload_out.
+  assert (H : concat (map vpiece_text (payload_pieces reps P)) =
+              unescape (fst P) ++ concat (map (fun kt => item_out reps (fst kt) ++ unescape (snd kt)) (snd P))).
+  { unfold payload_pieces. rewrite map_app, concat_app, lit_piece_text. f_equal.
+    induction (snd P) as [|[k T] l IH]; [reflexivity|].
+    cbn [flat_map map concat fst snd app]. rewrite map_app, concat_app, lit_piece_text, item_piece_text, IH.
+    rewrite app_assoc. reflexivity. }
+  destruct (payload_pieces reps P) as [|p ps] eqn:E.
+  - cbn [value_text]. rewrite <- H. reflexivity.
+  - cbn [value_text]. rewrite join_pieces_text. exact H.
+Qed.
+
+Definition is_field (k : item) : bool := match k with IField _ _ => true | _ => false end.
+
+Lemma join_pieces_texts : forall ps, ps <> [] -> Forall (fun p => match p with PText _ => True | PField _ _ => False end) ps ->
+  join_pieces ps = [VStr (concat (map vpiece_text ps))].
+Proof.
+  induction ps as [|p ps IH]; intros Hne HF; [congruence|].
+  inversion HF as [|x y Hp HF']; subst. destruct p as [s|i n]; [|contradiction].
+  cbn [join_pieces map concat vpiece_text].
+  destruct ps as [|p' ps']; [cbn [join_pieces map concat]; rewrite app_nil_r; reflexivity|].
+  rewrite (IH ltac:(discriminate) HF'). reflexivity.
+Qed.
+
+(* a payload without `${n}` fields (and not empty) is ONE string *)
+Theorem nested_value_flat reps P :
+  forallb (fun kt => negb (is_field (fst kt))) (snd P) = true -> payload_text P <> [] ->
+  nested_value reps P = Some [VStr (payload_out reps P)].
+Proof.
+  intros Hnf Hne.
+  pose proof (nested_value_text reps P) as Ht. unfold nested_value in *.
+  assert (HF : Forall (fun p => match p with PText _ => True | PField _ _ => False end) (payload_pieces reps P)).
+  { unfold payload_pieces. apply Forall_app. split.
+    - destruct (fst P); repeat constructor.
+    - induction (snd P) as [|[k T] l IH]; [constructor|].
+      cbn [forallb fst] in Hnf. apply andb_prop in Hnf. destruct Hnf as [Hk Hl].
+      cbn [flat_map fst snd]. constructor.
+      + destruct k; [exact I|exact I|discriminate].
+      + apply Forall_app. split; [destruct T; repeat constructor|apply IH; exact Hl]. }
+  destruct (payload_pieces reps P) as [|p ps] eqn:E.
+  - exfalso. apply Hne. unfold payload_pieces in E. apply app_eq_nil in E. destruct E as [E1 E2].
+    destruct P as [T0 l]. cbn [fst snd] in *. unfold payload_text. cbn [fst snd].
+    destruct T0; [|discriminate]. destruct l as [|[k T] l']; [reflexivity|discriminate].
+  - rewrite join_pieces_texts by (congruence || exact HF).
+    cbn [value_text] in Ht. rewrite join_pieces_text in Ht. rewrite Ht. reflexivity.
+Qed.
+
+(* text_literal is the case "no item": a payload that is one run *)
+Lemma payload_ok_run T : payload_ok (T, []) = bal 0 T.
+Proof.
+  unfold payload_ok. cbn [fst snd].
+  destruct (bal 0 T) eqn:E.
+  - apply bal_walk in E. rewrite E. reflexivity.
+  - destruct (walk 0 T) as [d|] eqn:Ew; [|reflexivity]. cbn [tail_ok].
+    destruct d; [|reflexivity]. apply bal_walk in Ew. congruence.
+Qed.
+Lemma nested_value_run reps T : nested_value reps (T, []) = text_value T.
+Proof. unfold nested_value, payload_pieces. cbn [fst snd flat_map]. rewrite app_nil_r. destruct T; reflexivity. Qed.
